@@ -33,11 +33,30 @@ import (
 const (
 	slowBound    = 5 * time.Second
 	fastBound    = 1 * time.Second
+	tickEvery    = 10 * time.Millisecond
 	infraBound   = 60 * time.Second
 	maxLateBegin = 3
 	nKeys        = 4
 	probeKey     = "probe"
 )
+
+// The bounds are measured on a heartbeat: a goroutine of this process that
+// sleeps 10 ms and counts. Time during which the whole process (or machine)
+// stands still does not count, and 5 s on this clock means that the Go
+// scheduler was demonstrably running goroutines of this process, the blocked
+// one included had it been runnable, for at least 5 s of wall-clock time.
+var ticks atomic.Int64
+
+func startHeartbeat() {
+	go func() {
+		for {
+			time.Sleep(tickEvery)
+			ticks.Add(1)
+		}
+	}()
+}
+
+func ticksOf(d time.Duration) int64 { return int64(d / tickEvery) }
 
 func keyOf(i int) string { return fmt.Sprintf("k%d", ((i%nKeys)+nKeys)%nKeys) }
 
@@ -161,7 +180,7 @@ type world struct {
 	shutdown  bool
 	epoch     int // number of server-side cleanup calls so far
 	late      int
-	releases  []string
+	releases  []release
 	features  map[string]bool
 	counters  map[string]int
 	trace     []string
@@ -312,7 +331,10 @@ func (w *world) diagnose() string {
 	if d, ok := w.leak(false); ok {
 		return d
 	}
-	rel := append([]string{}, w.releases...)
+	var rel []string
+	for _, r := range w.releases {
+		rel = append(rel, r.what)
+	}
 	sort.Strings(rel)
 	out := rel[:0]
 	for i, s := range rel {
@@ -323,32 +345,59 @@ func (w *world) diagnose() string {
 	return "holder=none_active:after=" + strings.Join(out, ",")
 }
 
-func (w *world) released(op string, t *txn) {
-	w.releases = append(w.releases, op+":"+t.mode())
+// release is one event after which a lock should be free. When later somebody
+// is blocked although every transaction is inactive, one of these events kept
+// its lock. A begin that succeeded afterwards exonerates: any begin for
+// read-write events (a kept write lock lets nobody in), a read-write begin for
+// read-only events (a kept read lock still lets readers in).
+type release struct {
+	what string
+	ro   bool
 }
 
-// waitFor polls cond until it holds or the liveness bound expires.
+func (w *world) released(op string, t *txn) {
+	w.releases = append(w.releases, release{op + ":" + t.mode(), t.ro})
+}
+
+// acquired: a begin (read-only or not) got the lock just now.
+func (w *world) acquired(ro bool) {
+	if !ro {
+		w.releases = w.releases[:0]
+		return
+	}
+	keep := w.releases[:0]
+	for _, r := range w.releases {
+		if r.ro {
+			keep = append(keep, r)
+		}
+	}
+	w.releases = keep
+}
+
+// waitFor polls cond until it holds or the liveness bound (on the heartbeat
+// clock) expires.
 func (w *world) waitFor(cond func() bool) bool {
 	start := time.Now()
 	defer func() { w.lastWait = time.Since(start) }()
-	deadline := start.Add(slowBound)
-	nextLeakCheck := start.Add(20 * time.Millisecond)
+	t0 := ticks.Load()
+	limit := ticksOf(slowBound)
+	nextLeakCheck := t0 + 2
 	fast := false
 	pause := 20 * time.Microsecond
 	for {
 		if cond() {
 			return true
 		}
-		now := time.Now()
-		if now.After(deadline) {
+		now := ticks.Load()
+		if now-t0 >= limit {
 			return cond()
 		}
-		if !fast && now.After(nextLeakCheck) {
-			nextLeakCheck = now.Add(50 * time.Millisecond)
+		if !fast && now >= nextLeakCheck {
+			nextLeakCheck = now + 5
 			if _, ok := w.leak(true); ok {
 				fast = true
-				if d := now.Add(fastBound); d.Before(deadline) {
-					deadline = d
+				if l := now - t0 + ticksOf(fastBound); l < limit {
+					limit = l
 				}
 			}
 		}
@@ -469,6 +518,7 @@ func (w *world) promote(t *txn) {
 			t.state = stCleaned
 			t.rec.how = "cleaned_during_begin"
 			w.counters["cleaned_during_begin"]++
+			w.acquired(t.ro)
 			w.released("cleaned_during_begin", t)
 			return
 		}
@@ -476,9 +526,7 @@ func (w *world) promote(t *txn) {
 	}
 	t.state = stOpen
 	t.rec.how = "begin"
-	if !t.ro {
-		w.releases = w.releases[:0] // a writer got the lock: everything before has let go of it
-	}
+	w.acquired(t.ro)
 	w.logf("  client %d: begin returned (%s %s %s)", t.client, t.path, t.mode(), t.id)
 }
 
@@ -691,9 +739,9 @@ func (w *world) doBegin(s Step) {
 	if deadline > 0 {
 		w.late++
 		call := t.call
-		start := time.Now()
+		start, t0 := time.Now(), ticks.Load()
 		for !isDone(call) {
-			if time.Since(start) > time.Duration(deadline)*time.Millisecond+slowBound {
+			if ticks.Load()-t0 > ticksOf(time.Duration(deadline)*time.Millisecond+slowBound) {
 				w.wedged = true
 				w.fail("begin_with_deadline_never_returned:"+t.path, "begin with a %d ms deadline has not returned after %v", deadline, time.Since(start))
 			}
@@ -1158,7 +1206,7 @@ func (w *world) probe(n int) {
 	if rec.err != nil || rec.tx == nil {
 		w.diverge("probe begin failed: %v", rec.err)
 	}
-	w.releases = w.releases[:0]
+	w.acquired(false)
 	val := fmt.Sprintf("p%d.%d", w.rep, n)
 	if err := rec.tx.Put([]byte(probeKey), []byte(val)); err != nil {
 		w.fail("probe_put_failed", "put in the fresh transaction: %v", err)
